@@ -284,6 +284,23 @@ def rule_leader(ctx, rep):
             rep.check(hit is None, "C02.leader", fl + ".first-never-sleeps", "the first caller never sleeps on its own wait node", "the caller that found the queue empty can sleep on its wait node: nobody is left to wake it", [push[0].where()])
             hit2, _ = f.reach([f.blocks[s_].insts[0]], gplock, include_start=True)
             rep.check(hit2 is not None, "C02.leader", fl + ".first-reaches-gp", "the first caller reaches the grace period", "the caller that found the queue empty never runs a grace period", [push[0].where()])
+        # the node a caller queues starts out WAITING: busy_wait returns as soon as the state differs from WAITING, so a node queued with an
+        # uninitialised (or any other) state lets its owner return from synchronize_rcu() without any grace period having elapsed
+        WAITING = ctx.mod(F.lib, "perfn").enum("urcu_wait_state", "URCU_WAIT_WAITING")
+        pat.require(WAITING is not None, "enum URCU_WAIT_WAITING")
+        lst = [s_ for s_ in f.all_insts() if s_.op == "store" and s_.d["ap"] and ir.ap_str(f, s_.d["ap"]).startswith("local:") and pat.last_field(s_.d["ap"]) == "urcu_wait_node.state"]
+        init = [s_ for s_ in lst if ir.const_of(f, s_.args[0]) == WAITING]
+        nodes = set(tuple(s_.d["ap"]["base"]) for s_ in lst)
+        if WAITING == 0:    # DEFINE_URCU_WAIT_NODE(wait, URCU_WAIT_WAITING): the initialiser is a memset(0) of the whole node
+            init += [i for i in f.all_insts() if i.op == "call" and i.callee.startswith("llvm.memset") and i.d["aps"][0] and tuple(i.d["aps"][0]["base"]) in nodes and not i.d["aps"][0]["steps"]
+                     and ir.const_of(f, i.args[1]) == 0 and (ir.const_of(f, i.args[2]) or 0) >= max([(pat.ap_offset(f.mod, s_.d["ap"]) or 0) + s_.d.get("bits", 32) // 8 for s_ in lst] or [1 << 30])]
+        if not init:
+            rep.bad("C02.leader", fl + ".node-starts-WAITING", "the wait node is queued without its state being set to WAITING: busy_wait takes whatever the stack held for a wake-up and "
+                    "synchronize_rcu() returns before the grace period it was merged into", [push[0].where()])
+        else:
+            rep.must_pass("C02.leader", fl + ".node-starts-WAITING", f, [f.entry()], push, lambda i: i in init, include_start=True, what="the wait node's state is WAITING when it is queued")
+            other = [s_ for s_ in lst if s_ not in init and f.reach([s_], push)[0] is not None and f.reach([f.entry()], push, avoid=lambda i: i is s_, include_start=True)[0] is None]
+            rep.check(not other, "C02.leader", fl + ".node-starts-WAITING.only", "no other state is stored before the push", "the node's state is overwritten before it is queued", [o.where() for o in other[:1]])
         RUN = ctx.mod(F.lib, "perfn").enum("urcu_wait_state", "URCU_WAIT_RUNNING")
         run = [s_ for s_ in f.all_insts() if s_.op == "store" and s_.d["ap"] and ir.ap_str(f, s_.d["ap"]).startswith("local:") and pat.last_field(s_.d["ap"]) == "urcu_wait_node.state" and ir.const_of(f, s_.args[0]) == RUN]
         wakes = waitloop.wake_sites(f)
@@ -434,6 +451,17 @@ def rule_node(ctx, rep):
                     bad.append(i)
             rep.check(not bad, "C02.node", fl + ".wake_all.next-before-wake", "no use of the node after it was handed to urcu_adaptative_wake_up (successor fetched first)",
                       "node is used after being woken (non-_safe iteration: the waiter's stack frame may be gone)", [b.where() for b in bad[:2]])
+        # wake_all skips exactly the nodes whose owner is already RUNNING (the leader's own node): every WAITING node is woken
+        for c in calls:
+            ats = [a for a in pat.dom_leaf_atoms(wa, c) if pat.atom_mentions(a, lambda e: pat.is_load_expr(e, "urcu_wait_node.state"))]
+            for a in ats:
+                if a[0] in ("eq", "ne") and a[2] == ("c", 0) and a[1][0] == "bin" and a[1][1] == "and" and a[1][3][0] == "c" and pat.is_load_expr(a[1][2], "urcu_wait_node.state"):
+                    ok = a[0] == "eq" and a[1][3][1] == RUN
+                    rep.check(ok, "C02.node", fl + ".wake_all.skips-only-RUNNING", "a queued node is woken unless its RUNNING bit is set",
+                              "urcu_wake_all_waiters wakes a node only when (state & 0x%x) %s 0: callers still WAITING on their node are skipped and sleep forever - "
+                              "their synchronize_rcu() never returns" % (a[1][3][1], "!=" if a[0] == "ne" else "=="), [c.where()])
+                else:
+                    rep.unk("C02.node", fl + ".wake_all.skips-only-RUNNING", "wake-up of a queued node depends on its state in a way this rule does not recognise: %s" % (a,))
         # busy_wait: returns only after observing TEARDOWN, after or RUNNING
         orr = [e.inst for e in pat.accesses(bw, "urcu_wait_node.state", ("rmw",)) if e.rop == "or" and ir.const_of(bw, e.val) == RUN]
         if not orr:
